@@ -849,6 +849,8 @@ class EquivPos1(Macro):
 
     def eval(self, args, prevs=None):
         arg1, arg2, arg3 = args
+        if not arg1.is_not() or not arg1.arg.is_equals():
+            raise VeriTException("equiv_pos1", "the first literal must be a negated equivalence")
         eq_tm = arg1.arg
         if eq_tm.arg1 == arg2 and Not(eq_tm.arg) == arg3:
             return Thm(Or(*args))
